@@ -170,53 +170,54 @@ Section Conv.
     | _ => false
     end.
 
-  Definition chain_process (c : ctx) (nodes : list bundle)
-      (operand_pred : bundle -> bool) (op_conv : bundle -> option doc)
+  Definition chain_process {S : Type} (c : ctx) (nodes : list bundle) (s0 : S)
+      (operand_pred : bundle -> bool) (op_conv : S -> bundle -> S * option doc)
       (rhs_conv : ctx -> bundle -> M (option doc))
       (fallback : ctx -> bundle -> M (option doc)) : M chain :=
-    r <- foldM (fun (st : chain * bool) (node : bundle) =>
-          let '(ch, can_attach) := st in
+    r <- foldM (fun (st : chain * bool * S) (node : bundle) =>
+          let '(ch, can_attach, s) := st in
           if operand_pred node then
             let ch0 := mk_chain (ch_items ch) (ch_op_num ch + 1) (ch_has_comment ch) in
-            r <- foldM (fun (st2 : chain * bool * bool) (child : bundle) =>
-                  let '(ch, can_attach, seen_op) := st2 in
-                  match op_conv child with
-                  | Some op => ret (mk_chain (ch_items ch ++ [COp op]) (ch_op_num ch) (ch_has_comment ch), can_attach, true)
+            r <- foldM (fun (st2 : chain * bool * bool * S) (child : bundle) =>
+                  let '(ch, can_attach, seen_op, s) := st2 in
+                  let '(s, oc) := op_conv s child in
+                  match oc with
+                  | Some op => ret (mk_chain (ch_items ch ++ [COp op]) (ch_op_num ch) (ch_has_comment ch), can_attach, true, s)
                   | None =>
                       if is_comment_b child then
                         d <- convert_comment child ;;
                         ret (mk_chain (ch_items ch ++ [if can_attach then CAttached d else CComment d])
-                                      (ch_op_num ch) true, can_attach, seen_op)
+                                      (ch_op_num ch) true, can_attach, seen_op, s)
                       else if kind_eqb (bk child) KSpace then
                         if has_lb (tx child) then
                           let ch' := if chain_last_is_comment (ch_items ch)
                                      then mk_chain (ch_items ch ++ [CLinebreak]) (ch_op_num ch) (ch_has_comment ch)
                                      else ch in
-                          ret (ch', false, seen_op)
-                        else ret (ch, can_attach, seen_op)
+                          ret (ch', false, seen_op, s)
+                        else ret (ch, can_attach, seen_op, s)
                       else if seen_op then
                         o <- rhs_conv c child ;;
                         match o with
-                        | Some rhs => ret (mk_chain (ch_items ch ++ [CBody rhs]) (ch_op_num ch) (ch_has_comment ch), true, seen_op)
-                        | None => ret (ch, can_attach, seen_op)
+                        | Some rhs => ret (mk_chain (ch_items ch ++ [CBody rhs]) (ch_op_num ch) (ch_has_comment ch), true, seen_op, s)
+                        | None => ret (ch, can_attach, seen_op, s)
                         end
-                      else ret (ch, can_attach, seen_op)
-                  end) (bkids node) (ch0, can_attach, false) ;;
-            let '(ch1, can_attach1, _) := r in
-            ret (ch1, can_attach1)
+                      else ret (ch, can_attach, seen_op, s)
+                  end) (bkids node) (ch0, can_attach, false, s) ;;
+            let '(ch1, can_attach1, _, s1) := r in
+            ret (ch1, can_attach1, s1)
           else
             o <- fallback c node ;;
             match o with
             | Some fb =>
                 match rev (ch_items ch) with
                 | CBody body :: r =>
-                    ret (mk_chain (rev r ++ [CBody (append body fb)]) (ch_op_num ch) (ch_has_comment ch), can_attach)
-                | _ => ret (mk_chain (ch_items ch ++ [CBody fb]) (ch_op_num ch) (ch_has_comment ch), can_attach)
+                    ret (mk_chain (rev r ++ [CBody (append body fb)]) (ch_op_num ch) (ch_has_comment ch), can_attach, s)
+                | _ => ret (mk_chain (ch_items ch ++ [CBody fb]) (ch_op_num ch) (ch_has_comment ch), can_attach, s)
                 end
-            | None => ret (ch, can_attach)
+            | None => ret (ch, can_attach, s)
             end)
-        nodes (chain_new, false) ;;
-    ret (fst r).
+        nodes (chain_new, false, s0) ;;
+    ret (fst (fst r)).
 
   Definition chain_doc (ch : chain) (sty : chain_style) : M doc := lift (chain_print_doc swidth tab ch sty).
 
@@ -626,16 +627,16 @@ Section Conv.
       if is_expr (bt child) then d <- call child (RExpr c) ;; ret (fi_spaced d) else ret fi_none).
 
   Definition convert_binary_chain (self : bundle) (c : ctx) : M doc :=
-    let op := binary_op (bt self) in
-    let prec := binop_precedence op in
-    ch <- chain_process c (rev (resolve_binary_chain self))
+    let prec := binop_precedence (binary_op (bt self)) in
+    ch <- chain_process c (rev (resolve_binary_chain self)) false
             (fun node => kind_eqb (bk node) KBinary && (binop_precedence (binary_op (bt node)) =? prec))
-            (fun child =>
-               if kind_eqb (bk child) KIn && binop_eqb op BNotIn then Some (text (binop_as_str op))
-               else match binop_from_kind (bk child) with
-                    | Some o => Some (text (binop_as_str o))
-                    | None => None
-                    end)
+            (fun (seen_not : bool) child =>
+               if kind_eqb (bk child) KNot then (true, None)
+               else if kind_eqb (bk child) KIn && seen_not then (false, Some (text (binop_as_str BNotIn)))
+               else (match binop_from_kind (bk child) with
+                     | Some o => (seen_not, Some (text (binop_as_str o)))
+                     | None => (seen_not, None)
+                     end))
             (opt_conv is_expr (fun c b => call b (RExpr c)))
             (opt_conv is_expr (fun c b => call b (RExpr c))) ;;
     chain_doc ch (mk_cs false true).
@@ -977,9 +978,9 @@ Section Conv.
   Definition args_of_call (b : bundle) : option bundle := last_kid (is_kind KArgs) b.
 
   Definition convert_dot_chain (self : bundle) (c : ctx) : M doc :=
-    ch <- chain_process c (rev (resolve_dot_chain self))
+    ch <- chain_process c (rev (resolve_dot_chain self)) tt
             (fun node => kind_eqb (bk node) KFieldAccess)
-            (fun child => if kind_eqb (bk child) KDot then Some (text [46]) else None)
+            (fun s child => (s, if kind_eqb (bk child) KDot then Some (text [46]) else None))
             (fun _ child => if kind_eqb (bk child) KIdent then ret (Some (convert_trivia (bt child))) else ret None)
             (fun c node =>
                if kind_eqb (bk node) KFuncCall then
@@ -1037,6 +1038,12 @@ Section Conv.
     match o with
     | Some d => ret d
     | None =>
+        if has_comment_children_b self then
+          flow_like c (bkids self) (fun c child =>
+            if kind_eqb (bk child) KDot then ret (fi_tight (text [46]))
+            else if is_expr (bt child) then d <- call child (RExpr c) ;; ret (fi_tight d)
+            else ret fi_none)
+        else
         tgt <- match first_kid is_expr self with
                | Some tg => call tg (RExpr c)
                | None => bump ;;; ret (text [110; 111; 110; 101])
@@ -1104,7 +1111,7 @@ Section Conv.
 
   Definition convert_import_items (c : ctx) (nodes : list bundle) : M doc :=
     let nodes' :=
-      if reorder_import_items cfg && forallb (fun b => negb (is_comment_b b)) nodes && no_dup_names nodes []
+      if reorder_import_items cfg && forallb (fun b => negb (contains_comment (bt b))) nodes && no_dup_names nodes []
       then sort_nodes nodes else nodes in
     l <- lst_process lst_new c nodes' (fun c child =>
            match bk child with
